@@ -107,6 +107,11 @@ pub open spec fn fr_data(a: World, b: World) -> bool {
     a.eexist == b.eexist && a.errno == b.errno && a.paths == b.paths && a.tolerated == b.tolerated
     && a.errors_sent == b.errors_sent && a.announced == b.announced && a.reported == b.reported
 }
+/// like fr_data, but `tolerated` may change too (fchown: its failure is a tolerated one)
+pub open spec fn fr_data_t(a: World, b: World) -> bool {
+    a.eexist == b.eexist && a.errno == b.errno && a.paths == b.paths
+    && a.errors_sent == b.errors_sent && a.announced == b.announced && a.reported == b.reported
+}
 /// nothing but `faults` (and errno) may differ
 pub open spec fn fr_ro(a: World, b: World) -> bool {
     a.eexist == b.eexist && a.errno == b.errno && a.eintr_left == b.eintr_left && a.files == b.files && a.cursor == b.cursor && a.paths == b.paths && a.trace == b.trace && a.tolerated == b.tolerated
@@ -117,9 +122,9 @@ pub open spec fn fr_libc(a: World, b: World) -> bool {
     a.eexist == b.eexist && a.paths == b.paths && a.tolerated == b.tolerated && a.eintr_left == b.eintr_left
     && a.errors_sent == b.errors_sent && a.announced == b.announced && a.reported == b.reported
 }
-/// the updater counters and the channel events only
+/// the updater counters, the channel events and `faults` only (a refused send is a fault: each user states what happens to `faults`)
 pub open spec fn fr_chan(a: World, b: World) -> bool {
-    a.eexist == b.eexist && a.errno == b.errno && a.eintr_left == b.eintr_left && a.files == b.files && a.cursor == b.cursor && a.paths == b.paths && a.tolerated == b.tolerated && a.faults == b.faults
+    a.eexist == b.eexist && a.errno == b.errno && a.eintr_left == b.eintr_left && a.files == b.files && a.cursor == b.cursor && a.paths == b.paths && a.tolerated == b.tolerated
 }
 /// every inode other than `i` is untouched, and no inode disappears or appears
 pub open spec fn others_same(a: Map<Inode, FileState>, b: Map<Inode, FileState>, i: Inode) -> bool {
